@@ -48,6 +48,11 @@ CHECKS = {
    note=TB + "Defect found and repaired (fix c7dc48f): five cardinality forms without FROM required nothing. The model is of the repaired code.",
    technique="Coq proof (structural induction over nested sources; case analysis over statement kinds) + exhaustive-over-kinds correspondence",
    design="5 C19"),
+ "C20": dict(
+   text="Theorems (all field lists): if the explicit aliases are pairwise distinct then all field column names ColumnNames returns are pairwise distinct (invariant: every generated name is absent from the names map when it is chosen, and the map already holds every alias); the suffix search terminates within |names|+1 steps (pigeonhole over the injective suffix spelling) so ColumnNames is total; one name per column in field order with top()/bottom() tag arguments as their own columns, the time column or its alias first unless omitted; aliases verbatim at their positions. Tie: ColumnNames vs model on every field list of length <=2 (thorough <=3) over a collision-dense pool with and without aliases (exhaustive) and random lists of up to 7 fields with aliases equal to generated names and suffixes, INTO, OmitTime and TimeAlias; shape, distinctness and purity judged directly.",
+   note=TB + "Fix bdafb1d (ColumnNames sliced Args[1:] of top() without arguments) is assumed by the totality theorem; the model is of the repaired code.",
+   technique="Coq proof (induction over the column list with a freshness invariant; pigeonhole for termination) + small-scope exhaustive correspondence",
+   design="5 C20"),
  "C03": dict(
    text="Theorems (all chains, all operands, by induction): the tree ParseExpr's right-spine insertion builds from a chain yields the chain in order and is Grouped (left children bind at least as tight, right children strictly tighter); there is exactly one Grouped tree per chain; the function on real BinaryExpr nodes builds that tree for every operand parseUnaryExpr can return; precedence/isOperator tables by computation over the whole enumeration; right spine <= 5. Tie: token table compared exhaustively with the running code; every chain of <=3 (thorough <=4) operators over all 18 spellings plus random chains with parenthesised, negated and literal operands compared (ParseExpr vs model, composed from separately parsed operands) and checked directly against the documented five-level reading and against re-parsing of the printed tree.",
    note=TB + "Re-printing is guarded by the known finding C02-neg-rhs (unary sign desugared without ParenExpr).",
